@@ -4,7 +4,7 @@ _C02_DEF = [V("plain"),
             V("plain+default=check_validity", flags=["-DST_DEFAULT_VALIDATION=ST::check_validity", "-DVF_DEFAULT_MODE=2", "-DVF_DEFAULT_ONLY"])]
 prop("C02", "c02.cpp", _C02_DEF, _C02_DEF + [V("asan")],
      explain="every unit sequence over class-boundary alphabets (and complete per-position sweeps) through every conversion reading that encoding, in every mode and under every ST_DEFAULT_VALIDATION setting, against the reference left-to-right decoder",
-     bounds={"quick": "UTF-8: A8^<=4 (16 symbols) all routes, A8^5 primary routes, all 256^2 pairs, every byte between 25 neighbour pairs; UTF-16: A16^<=4 all routes, A16^5, all 65,536 units in 6 contexts; UTF-32: A32^<=4, all values 10FF00..110100, single-bit values; 3 default-mode builds over ^<=4/^<=3",
+     bounds={"quick": "UTF-8: A8^<=4 (16 symbols) all routes, A8^5 primary routes, all 256^2 pairs, every byte between 25 neighbour pairs; UTF-16: A16^<=4 all routes, A16^5, all 65,536 units in 6 contexts; UTF-32: A32^<=4, all values 10FF00..110100, single-bit values; 3 default-mode builds over ^<=4/^<=3; position sweep: 24 well-formed / malformed units of every encoding behind 0..70 units of filler (ASCII, U+00E9) with 0/1/7 units after, all routes; the 16-bit wchar_t template variants; static-initialisation battery",
              "thorough": "A8^<=5 all routes, A8^6, core^7, core^8, all 256^3; A16^<=5, A16^6, all 2048^2 surrogate pairs; A32^<=5; default-mode builds over ^<=5/^<=4; plain and ASan+UBSan"},
      deadline={"quick": 600, "thorough": 3300})
 
